@@ -113,6 +113,20 @@ class NpShim:
             return sym.ctx().branch(z3.And(*conj)) if conj else True
         return np.allclose(np.asarray(a, dtype=float), np.asarray(b, dtype=float), rtol=rtol, atol=atol, equal_nan=equal_nan)
 
+    def clip(self, a, a_min=None, a_max=None, out=None, **k):
+        if _has_sym(a) or _has_sym(a_min) or _has_sym(a_max):
+            USED.add("np.clip (merged)")
+            r = _wrapin(np.asarray(a, dtype=object))
+            if a_min is not None:
+                r = sym._vec2(sym._max2, r, a_min)
+            if a_max is not None:
+                r = sym._vec2(sym._min2, r, a_max)
+            if out is not None:
+                out[...] = r
+                return out
+            return r
+        return np.clip(a, a_min, a_max, out=out, **k)
+
     def isnan(self, a):
         a = _wrapin(a) if isinstance(a, np.ndarray) else a
         if isinstance(a, np.ndarray) and a.dtype == object:
